@@ -33,6 +33,16 @@ def explore(ctx):
             lines.append("ROUNDTRIP 0 " + h(e + "\n"))
             exprs.append(e)
         cases.append({"lines": lines, "exprs": exprs})
+    # values that are large in one dimension: nesting depth, number of dotted pairs, number of elements
+    lines = ["NEW 0 std"]
+    exprs = []
+    for kind, size, text in gen.big_datum_texts(ctx.rng, ctx.quick):
+        if size > 600 and kind.startswith("nested"):
+            continue
+        e = "(quote %s)" % text.replace('"s"', "s2").replace("'(", "(")
+        lines.append("ROUNDTRIP 0 " + h(e + "\n"))
+        exprs.append("%s %d" % (kind, size))
+    cases.append({"lines": lines, "exprs": exprs})
     # the results of arithmetic on the numeric grid
     g = numgrid.grid()
     lines = ["NEW 0 std"]
@@ -110,7 +120,7 @@ def explore(ctx):
         "rule": "random value trees of the readable subset (depth <= 5, width <= 6: boundary integers, ratios of both signs also "
                 "as results of division, binary32 values from a table of edge cases - subnormals, powers of ten and two, "
                 "shortest-representation edge cases - and random bit patterns, characters, plain and peculiar symbols, "
-                "proper / improper lists, vectors) and the results of arithmetic on the C09 grid%s: the value is displayed, the text is "
+                "proper / improper lists, vectors), values large in one dimension (nested to 600, 100-1500 dotted pairs, dotted tail chains, up to 6000 elements) and the results of arithmetic on the C09 grid%s: the value is displayed, the text is "
                 "quoted and read back on the same interpreter; text and both values compared model vs implementation, the "
                 "read-back value must equal the original (same exactness, bit-identical reals), distinct values must print "
                 "differently. non-trivial = distinct printed text" % ("" if ctx.quick else " and 200000 random finite binary32 patterns"),
